@@ -24,7 +24,9 @@ RULE = ('lines: sequences of server lines over an abstract alphabet (REJECTED wi
         'completion; S4 a line outside the protocol or exhaustion of the mechanisms closes the connection. '
         'handshake: full conversations against a spec-following reference server actor for every non-empty subset of '
         'accepted mechanisms x answer to NEGOTIATE_UNIX_FD (AGREE/ERROR) x transport kind, the cookie keyring living '
-        'under a scratch $HOME; oracle S5: the handshake completes. Non-trivial = the sequence contains a valid OK or '
+        'under a scratch $HOME, plus cookie challenges this client cannot answer (unknown cookie id, no keyring); oracle '
+        'S5: the handshake completes whenever the server accepts a mechanism the client can carry through, otherwise the '
+        'client closes and never claims success. Non-trivial = the sequence contains a valid OK or '
         'moves past the first mechanism; distinct = distinct case JSON.')
 ASSUMPTIONS = ['an exception escaping dataReceived counts as connection loss (what the reactor does)',
                'the reference server actor is the trusted statement of a spec-conforming server']
@@ -262,7 +264,8 @@ def random_lines(draw, tier):
 class RefServer:
     """Deterministic, spec-following authentication server (actor)."""
 
-    def __init__(self, accept, neg_answer, keyring, nonce, external_style):
+    def __init__(self, accept, neg_answer, keyring, nonce, external_style, cookie_mode='ok'):
+        self.cookie_mode = cookie_mode          # 'ok' | 'unknown-id' (challenge names a cookie the keyring lacks) | 'no-keyring'
         self.accept = set(accept)
         self.neg_answer = neg_answer
         self.keyring = keyring
@@ -309,14 +312,16 @@ class RefServer:
                 if mech == 'DBUS_COOKIE_SHA1':
                     if len(args) < 2:
                         return self._reject()
-                    os.makedirs(self.keyring, mode=0o700, exist_ok=True)
                     self.cookie = binascii.hexlify(hashlib.sha1(b'cookie' + self.nonce).digest() * 2)[:48]
-                    with open(os.path.join(self.keyring, 'org_verif_ref'), 'wb') as f:
-                        f.write(b'7 1 ' + b'00' * 8 + b'\n')
-                        f.write(b'11 ' + str(int(__import__('time').time())).encode() + b' ' + self.cookie + b'\n')
+                    if self.cookie_mode != 'no-keyring':
+                        os.makedirs(self.keyring, mode=0o700, exist_ok=True)
+                        with open(os.path.join(self.keyring, 'org_verif_ref'), 'wb') as f:
+                            f.write(b'7 1 ' + b'00' * 8 + b'\n')
+                            f.write(b'11 ' + str(int(__import__('time').time())).encode() + b' ' + self.cookie + b'\n')
                     self.challenge = binascii.hexlify(hashlib.sha1(b'chal' + self.nonce).digest())
                     self.state, self.mech = 'WFD', mech
-                    return self._send(b'DATA ' + binascii.hexlify(b'org_verif_ref 11 ' + self.challenge))
+                    cid = b'12' if self.cookie_mode == 'unknown-id' else b'11'
+                    return self._send(b'DATA ' + binascii.hexlify(b'org_verif_ref ' + cid + b' ' + self.challenge))
                 return self._reject()
             if cmd == b'BEGIN':
                 self.closed = True
@@ -333,7 +338,7 @@ class RefServer:
                 except Exception:
                     return self._reject()
                 want = binascii.hexlify(hashlib.sha1(self.challenge + b':' + cchal + b':' + self.cookie).digest())
-                return self._ok() if h == want else self._reject()
+                return self._ok() if h == want and self.cookie_mode == 'ok' else self._reject()
             if cmd == b'BEGIN':
                 self.closed = True
                 return
@@ -360,7 +365,7 @@ def run_handshake(case):
         log = {'authed': 0}
         c = _client(case['unix'], log)
         srv = RefServer(case['accept'], case['neg'].encode(), os.path.join(scratch, '.dbus-keyrings'),
-                        case['nonce'].encode(), case['external'])
+                        case['nonce'].encode(), case['external'], case.get('cookie', 'ok'))
         pending = c.transport.take().lstrip(b'\0')
         rounds = 0
         trace = []
@@ -389,8 +394,18 @@ def run_handshake(case):
             if log['authed'] and not pending:
                 break
         ok = srv.begun and log['authed'] == 1 and not c.transport.disconnected
-        first_ok = [m for m in ['EXTERNAL', 'DBUS_COOKIE_SHA1', 'ANONYMOUS'] if m in case['accept']][0]
-        if not ok:
+        # mechanisms the server accepts AND this client can carry through (a cookie it does not have cannot be proven)
+        usable = [m for m in ['EXTERNAL', 'DBUS_COOKIE_SHA1', 'ANONYMOUS'] if m in case['accept']
+                  and not (m == 'DBUS_COOKIE_SHA1' and case.get('cookie', 'ok') != 'ok')]
+        first_ok = usable[0] if usable else None
+        if first_ok is None:
+            # nothing can succeed: the client must give up by closing, and must not claim success
+            if log['authed'] or srv.begun:
+                out.append(Disc('S1.authenticated-without-usable-mechanism', '\n'.join('%s: %r' % t for t in trace)))
+            elif not c.transport.disconnected:
+                out.append(Disc('S3.stall:no-usable-mechanism', 'accept=%r cookie=%r: client neither finished nor closed\n%s' % (
+                    case['accept'], case.get('cookie'), '\n'.join('%s: %r' % t for t in trace))))
+        elif not ok:
             out.append(Disc('S5.handshake-fails:%s%s' % (first_ok, (',neg=' + case['neg']) if case['unix'] else ''),
                             'accept=%r unix=%r: server begun=%r client authenticated=%r closed=%r\n%s' % (
                                 case['accept'], case['unix'], srv.begun, log['authed'], c.transport.disconnected,
@@ -416,10 +431,17 @@ def enum_handshake(tier):
                 for unix in (True, False):
                     for ext in ('ok', 'data'):
                         yield {'accept': list(acc), 'neg': neg, 'unix': unix, 'external': ext, 'nonce': 'n1'}
+                        if 'DBUS_COOKIE_SHA1' in acc and ext == 'ok':
+                            # the server proposes a cookie this client does not hold: the client gives that mechanism
+                            # up cleanly and the handshake goes on with what is left
+                            for ck in ('unknown-id', 'no-keyring'):
+                                yield {'accept': list(acc), 'neg': neg, 'unix': unix, 'external': ext, 'nonce': 'n1',
+                                       'cookie': ck}
 
 
 def classify_handshake(case):
-    return True, ['unix' if case['unix'] else 'tcp', 'neg_' + case['neg'], '+'.join(case['accept'])]
+    return True, ['unix' if case['unix'] else 'tcp', 'neg_' + case['neg'], '+'.join(case['accept']),
+                  'cookie_' + case.get('cookie', 'ok')]
 
 
 SUBCHECKS = [
@@ -431,5 +453,6 @@ SUBCHECKS = [
     Subcheck('handshake', run_handshake, classify_handshake, enumerate=enum_handshake,
              shards={'quick': 2, 'thorough': 2},
              exhaustive_note='7 non-empty subsets of accepted mechanisms x 2 answers to NEGOTIATE_UNIX_FD x 2 transport '
-                             'kinds x 2 EXTERNAL server styles'),
+                             'kinds x 2 EXTERNAL server styles, plus cookie challenges the client cannot answer (unknown '
+                             'cookie id, no keyring)'),
 ]
